@@ -24,6 +24,12 @@ func init() {
 			Expect: "ptr.fresh-store", Why: "MCC/MNC overwritten in place: value copies of the sublist share the ints"},
 		Mutant{Name: "c15-flow-label-mask", Prop: "C15", File: "nasType/qos_rule.go", Old: "\tp.Label = uint32(b[0])<<16 | uint32(b[1])<<8 | uint32(b[2])", New: "\tp.Label = uint32(b[0]&0x03)<<16 | uint32(b[1])<<8 | uint32(b[2])",
 			Expect: "comp.roundtrip", Why: "labels of 2^18 and more serialise (below 2^19) but lose a bit on parse"},
+		Mutant{Name: "c15-ipv4-mask-offset", Prop: "C15", File: "nasType/qos_rule.go", Old: "\tp.Mask = b[4:8]", New: "\tp.Mask = b[3:7]",
+			Expect: "comp.roundtrip / nasType.PacketFilterIPv4", Why: "mask parsed one octet early (overlaps the address)"},
+		Mutant{Name: "c15-mac-short", Prop: "C15", File: "nasType/qos_rule.go", Old: "\tp.MAC = b\n", New: "\tp.MAC = b[:5]\n",
+			Expect: "comp.roundtrip / nasType.PacketFilter", Why: "last MAC address octet dropped on parse"},
+		Mutant{Name: "c15-ipv4-order", Prop: "C15", File: "nasType/qos_rule.go", Old: "\tif err := binary.Write(buf, binary.BigEndian, p.Address); err != nil {\n\t\treturn nil, err\n\t}\n\n\tif err := binary.Write(buf, binary.BigEndian, p.Mask); err != nil {", New: "\tif err := binary.Write(buf, binary.BigEndian, p.Mask); err != nil {\n\t\treturn nil, err\n\t}\n\n\tif err := binary.Write(buf, binary.BigEndian, p.Address); err != nil {",
+			Expect: "comp.roundtrip / nasType.PacketFilterIPv4", Why: "mask serialised before the address"},
 		Mutant{Name: "c15-skip-repeated-parameter", Prop: "C15", File: "nasType/qos_flow_desc.go", Old: "\tfor _, parameter := range *l {\n\t\tif err := binary.Write(buf, binary.BigEndian, parameter.Identifier()); err != nil {", New: "\tfor i, parameter := range *l {\n\t\tif i > 0 && (*l)[i-1].Identifier() == parameter.Identifier() {\n\t\t\tcontinue\n\t\t}\n\t\tif err := binary.Write(buf, binary.BigEndian, parameter.Identifier()); err != nil {",
 			Expect: "seq.all-items", Why: "a repeated parameter is counted but not written"},
 		Mutant{Name: "c09-dnn-root-label-stops", Prop: "C09", File: "nasType/NAS_DNN.go", Old: "\t\t\tfqdn += string(rfc1035Reader.Next(int(labelLen))) + \".\"", New: "\t\t\tif labelLen == 0 {\n\t\t\t\tbreak\n\t\t\t}\n\t\t\tfqdn += string(rfc1035Reader.Next(int(labelLen))) + \".\"",
